@@ -270,7 +270,12 @@ def _arith(sem_r, known, free_vals, nv):
 
 def poly_stream(ctx, rng, n, what="LinearPolynomial"):
     from pdpy11 import deferred as D
-    depth0 = D.try_compute.depth
+    from . import internals
+    try:
+        depth0 = internals.try_depth(D)
+    except internals.TieBroken as tb:
+        ctx.disagree("tie to deferred.py internals", {"missing": str(tb)}, "try_compute.depth", "not found")
+        return
     reqs, jobs = [], []
     for _ in range(n):
         nv, ops, sem, known = (_gen_chain if rng.random() < 0.5 else _gen_script)(rng, big=True)
@@ -283,7 +288,7 @@ def poly_stream(ctx, rng, n, what="LinearPolynomial"):
             got, waits = _run_impl(nv, ops)
         except Exception as e:  # noqa: BLE001 - a crash of the engine on a legal script is a finding
             ctx.violation("LinearPolynomial raised on a legal operation script", inp, expected="a polynomial", observed=repr(e)[:300])
-            D.try_compute.depth = depth0
+            internals.set_try_depth(D, depth0)
             continue
         # oracle on the implementation alone: a value returned by wait() is the arithmetic value, whatever the
         # variables nothing is known about are
